@@ -228,7 +228,7 @@ func runPlansFresh(plans []*Plan, gomaxprocs int) (res []*PlanResult, died bool,
 		if ee, ok := err.(*exec.ExitError); ok && ee.ExitCode() == 2 && strings.Contains(eb.String(), "INFRASTRUCTURE") {
 			infra("node: %s", tail(eb.String(), 600))
 		}
-		return nil, true, tail(eb.String(), 1500)
+		return nil, true, headTail(eb.String(), 1200)
 	}
 	b, err := os.ReadFile(out)
 	if err != nil {
@@ -239,6 +239,13 @@ func runPlansFresh(plans []*Plan, gomaxprocs int) (res []*PlanResult, died bool,
 		infra("bad node output: %v", err)
 	}
 	return eo.Results, false, ""
+}
+
+func headTail(s string, n int) string {
+	if len(s) <= 2*n {
+		return s
+	}
+	return s[:n] + "\n…\n" + s[len(s)-n:]
 }
 
 func tail(s string, n int) string {
@@ -368,7 +375,7 @@ func runBatch(prop string, seed uint64, tier string, indices []int, workers int,
 					}
 				}
 				mu.Lock()
-				oc.deaths = append(oc.deaths, death{index: inflight, stderr: tail(eb.String(), 3000), worker: j})
+				oc.deaths = append(oc.deaths, death{index: inflight, stderr: headTail(eb.String(), 1500), worker: j})
 				mu.Unlock()
 				var rest []int
 				for _, v := range todo {
